@@ -11,42 +11,67 @@
 // # Go subset (everything else: exit status 2 with a message, never a guess)
 //
 //	types       int, int64 (signed, Lean Int wrapped to 64 bits), uint8/byte, uint16, uint32, uint64,
-//	            uint (unsigned, Lean Nat kept below 2^bits), []byte parameters (Lean ByteArray, read only),
-//	            structs / pointers to structs whose fields are all unsigned/signed integers
-//	            (Lean structure generated from the type declaration), error results (Option String)
+//	            uint (unsigned, Lean Nat kept below 2^bits), []byte (Lean ByteArray, value semantics, see
+//	            "byte buffers"), error (Option String), structs / pointers to structs of the package
+//	            whose fields are integers or []byte (Lean structure generated from the type declaration;
+//	            as parameters they are read only)
 //	statements  x := e   x = e   a, b := e1, e2 (simultaneous)   x op= e (+ - * / % | & << >>)   x++  x--
+//	            a, b := f(…)  /  a, _ = f(…)   (f in the primitive table or an already translated function)
 //	            p.F = e (field of a struct local)   var x T   var x = e   var ( … )
+//	            b[i] = e   copy(b, e)   (b a written []byte variable)
 //	            if c { … } [else { … } | else if …]      (no init statement)
-//	            for c { … }                               (no init/post, no break/continue/return/loop inside,
-//	                                                       only at the top level of the function body;
-//	                                                       fuel expression from the table below)
-//	            return e1, …, en
+//	            for c { … }                               (no init/post; body without return/break/continue:
+//	                                                       a state transformer)
+//	            for { … } / for c { … } with return, break, continue in the body (body ↦ Ctl, see below)
+//	            (loops: not nested, fuel expression from the whitelist table)
+//	            return e1, …, en; falling off the end of a function without results
 //	            the statement sequences of the effect table below
 //	expressions integer literals and constants (named package constants are emitted as Lean defs with
 //	            the value computed by go/types; other constant expressions are folded by go/types),
 //	            locals, parameters, integer fields of the receiver (become extra parameters recv_Field),
-//	            fields of struct locals, + - * / % (divisor: non-zero constant) & | << >> (constant
-//	            count), == != < <= > >=, && || !, integer conversions T(e), min(a,b), len(b),
-//	            b[i], b[lo:hi], b[lo:], b[:hi] on []byte parameters, &T{F: e, …} / T{F: e, …},
-//	            nil ([]byte or error result), package level error variables,
-//	            the library calls of the primitive table below
+//	            fields of struct locals / struct parameters, + - * / % (divisor: non-zero constant)
+//	            & | << >> (constant count), == != < <= > >=, && || !, integer conversions T(e),
+//	            min/max(a,b), len(b), b[i], b[lo:hi], b[lo:], b[:hi], make([]byte, n),
+//	            &T{F: e, …} / T{F: e, …}, nil ([]byte or error), err == nil / err != ErrX,
+//	            package level error variables (also of imported packages: io.EOF),
+//	            the library calls of the primitive table, calls of already translated functions /
+//	            methods on the same receiver (without loops and effects)
 //
 // No other calls, no shadowing / redeclaration of a local name, no closures, no goto/labels,
-// no switch/range/defer/go, no bool or []byte locals.
+// no switch/range/defer/go, no bool locals, no aliasing of a written buffer (see below).
 //
 // # Translation scheme
 //
-// The mutable locals of a function (and the parameters it assigns) become the fields of a Lean
-// structure `<pkg>.<func>.St`; every statement is a `let st := { st with x := e }`, an `if`
+// The mutable locals of a function (and the parameters it assigns or writes into) become the fields of
+// a Lean structure `<pkg>.<func>.St`; every statement is a `let st : St := { st with x := e }`, an `if`
 // without return is a state transformer `let st := if c then … st else … st`, an `if` with a return
-// puts the rest of the block into the branch that continues.  `for c { body }` becomes
+// puts the rest of the block into the branch that continues.  `for c { body }` without
+// return/break/continue becomes
 //
 //	<func>.body<i> : St → St                 the loop body
 //	<func>.loop<i> : Nat → St → Option St    structural recursion on fuel; `none` = fuel exhausted
 //
+// a loop with return / break / continue in its body becomes
+//
+//	<func>.body<i> : St → Ctl St R           Ctl = next st | brk st | ret v   (R = result type)
+//	<func>.loop<i> : Nat → St → Option (St ⊕ R)
+//	   | 0, _ => none | fuel+1, st => [if c then] Ctl.step (body st) (loop fuel) [else some (.inl st)]
+//	   … Ctl.after (loop fuel st) fun st => <rest of the function>
+//
 // and a function with a loop returns `Option result` (`none` is never a Go result: an equality
 // `f … = some r` therefore also proves that the fuel of the table sufficed).  A function with
-// effect statements additionally returns the list of emitted segments (`List Seg`).
+// segment effects additionally returns the list of emitted segments (`List Seg`), a function with
+// byte-append effects the appended byte string (last component of the result).
+//
+// # Byte buffers
+//
+// []byte values are immutable Lean ByteArrays; a variable that is written (b[i] = x, copy(b, …), a write
+// primitive PutVarint(b[i:], …), the read effect) is a state field that is overwritten as a whole
+// (`putAt`, `copySlice`).  This is only sound without aliasing, which is enforced syntactically: a
+// written variable may only be assigned fresh values (make, nil), and a variable that may be a view of a
+// written buffer (a sub-slice, or the []byte result of a call that received one) must be declared by
+// that very statement with no later write to the buffer in its scope.  Written []byte *parameters* are
+// assumed not to overlap the other parameters, and their final content is not part of the result.
 //
 // # Integer semantics (faithful, not idealised)
 //
@@ -61,8 +86,9 @@
 //	             (wrapped by i64 for uint64).
 //
 // Not modelled: run-time panics (index / slice bounds, which is why `b[lo:hi]` is `b.extract lo hi`
-// and agrees with Go only for lo ≤ hi ≤ len(b); division by zero is excluded syntactically), the
-// distinction between nil and empty slices, and `len` ≥ 2^63.
+// and agrees with Go only for lo ≤ hi ≤ len(b); make with a negative size; nil pointer dereference;
+// division by zero is excluded syntactically), slice capacity (Go allows re-slicing up to cap(b)), the
+// distinction between nil and empty slices, `len` ≥ 2^63, IO errors of the read effect.
 //
 // On any construct outside the subset the tool prints a message, exits with status 2 and
 // overwrites <outfile> with a stub whose elaboration fails, so that no stale translation survives.
@@ -89,7 +115,7 @@ import (
 // tables (the trusted, hand-written part besides the generic walker)
 // ---------------------------------------------------------------------------------------------
 
-// whitelist, in output order
+// whitelist, in output order (a function may only call functions that precede it)
 type spec struct {
 	pkg   string   // directory below the repo root
 	recv  string   // receiver type name, "" for plain functions
@@ -109,31 +135,55 @@ var whitelist = []spec{
 	{pkg: "datafile", fn: "GetLogRecordDiskSize"},
 	{pkg: "datafile", recv: "DataFile", fn: "writeToBuf", fuel: []string{"data.size + 1"}},
 	{pkg: "datafile", fn: "DecodeChunk"},
+	{pkg: "datafile", fn: "DecodeLogRecord"},
+	{pkg: "datafile", fn: "DecodeLogRecordValue"},
+	{pkg: "datafile", fn: "EncodeLogRecord"},
+	{pkg: "datafile", fn: "EncodeHintRecord"},
+	{pkg: "datafile", fn: "DecodeHintRecord"},
+	{pkg: "datafile", recv: "DataFile", fn: "Size"},
+	{pkg: "datafile", recv: "DataFile", fn: "readToBuf", fuel: []string{"file.size + 1"}},
 	{pkg: "index", fn: "nextPowerOfTwo"},
 	{pkg: "fio", recv: "MMap", fn: "remap", slice: &sliceSpec{assignTo: "m.endOff", lean: "remap_endOff", guard: "remap_covered"}},
 }
 
-// effect table: a sequence of Go statements (metavariables M_*) ↦ one emitted segment.
+// abstract parameter of a generated definition (something the Go function takes from its
+// environment: a library function, the content of the file, the content of a pooled buffer)
+type absParam struct {
+	name string
+	ty   string // Lean type
+	doc  string // range / meaning, for the doc comment
+}
+
+var (
+	absCrc  = absParam{"crc32_ChecksumIEEE", "ByteArray → Nat", "crc32_ChecksumIEEE _ < 2^32"}
+	absFile = absParam{"file", "ByteArray", "file = the bytes of the file behind the receiver's ReadWriter"}
+)
+
+// effect table: a sequence of Go statements (metavariables M_*) ↦ an effect on the translation state.
 // M_BUF must be a parameter of type *bytebufferpool.ByteBuffer, M_RECV the receiver,
-// M_DATA a []byte parameter, M_TMP* fresh locals that occur nowhere else in the function.
+// M_DATA a []byte parameter, tmps fresh variables that occur nowhere else in the function
+// (checked on go/types objects), `writes` a []byte variable that the statements overwrite.
 type effect struct {
 	name    string
 	pattern string   // Go statements
-	tmps    []string // metavariables that must be locals used only inside the match
-	emit    func(t *tr, b map[string]ast.Node) string
+	tmps    []string // metavariables that must be variables used only inside the match
+	writes  string   // metavariable: a []byte variable (local or parameter) written by the statements
+	apply   func(t *tr, b map[string]ast.Node, o *out, ind string)
 }
 
 var effects = []effect{
 	{
+		// n zero bytes appended to the output buffer
 		name: "pad",
 		pattern: `M_TMP := make([]byte, M_N)
 M_BUF.B = append(M_BUF.B, M_TMP...)`,
 		tmps: []string{"M_TMP"},
-		emit: func(t *tr, b map[string]ast.Node) string {
-			return "Seg.pad " + t.natArg(b["M_N"].(ast.Expr))
+		apply: func(t *tr, b map[string]ast.Node, o *out, ind string) {
+			t.emitSeg(o, ind, "Seg.pad "+t.natArg(b["M_N"].(ast.Expr)))
 		},
 	},
 	{
+		// one chunk (header + payload slice) appended to the output buffer
 		name: "chunk",
 		pattern: `M_RECV.headerBuf[6] = M_T
 binary.LittleEndian.PutUint16(M_RECV.headerBuf[4:6], uint16(M_L))
@@ -143,30 +193,101 @@ binary.LittleEndian.PutUint32(M_RECV.headerBuf[:4], M_TMP)
 _, _ = M_BUF.Write(M_RECV.headerBuf)
 _, _ = M_BUF.Write(M_DATA[M_LO:M_HI])`,
 		tmps: []string{"M_TMP"},
-		emit: func(t *tr, b map[string]ast.Node) string {
+		apply: func(t *tr, b map[string]ast.Node, o *out, ind string) {
 			l := b["M_L"].(ast.Expr)
-			conv := &ast.CallExpr{Fun: ast.NewIdent("uint16"), Args: []ast.Expr{l}}
-			_ = conv
 			lx, lk := t.expr(l)
 			len16 := t.convert(lx, lk, kind{k: kUint, bits: 16}, l)
-			return "Seg.chunk " + t.natArg(b["M_T"].(ast.Expr)) + " " + par(len16) + " " +
-				t.natArg(b["M_LO"].(ast.Expr)) + " " + t.natArg(b["M_HI"].(ast.Expr))
+			t.emitSeg(o, ind, "Seg.chunk "+t.natArg(b["M_T"].(ast.Expr))+" "+par(len16)+" "+
+				t.natArg(b["M_LO"].(ast.Expr))+" "+t.natArg(b["M_HI"].(ast.Expr)))
+		},
+	},
+	{
+		// bytes appended to the output buffer: the function's output is the appended byte string
+		name:    "append",
+		pattern: `M_BUF.B = append(M_BUF.B, M_X...)`,
+		apply: func(t *tr, b map[string]ast.Node, o *out, ind string) {
+			x := t.bytesExpr(b["M_X"].(ast.Expr))
+			t.noPending(b["M_X"])
+			t.hasOut = true
+			o.add(ind, "let st : "+t.leanName+".St := { st with out := st.out ++ "+opd(x)+" }")
+		},
+	},
+	{
+		// a block buffer from the pool: blockSize bytes of unspecified (stale) content, an abstract
+		// parameter of the generated definition; giving it back to the pool has no visible effect
+		name: "getBuf",
+		pattern: `M_B := getBuf()
+defer putBuf(M_B)`,
+		apply: func(t *tr, b map[string]ast.Node, o *out, ind string) {
+			id, ok := b["M_B"].(*ast.Ident)
+			if !ok {
+				failAt(b["M_B"], "effect getBuf: target is not an identifier")
+			}
+			if t.inLoop {
+				failAt(id, "effect getBuf: defer inside a loop is outside the subset")
+			}
+			name := t.declare(id, kind{k: kBytes})
+			a := absParam{"getBuf_" + name, "ByteArray", "getBuf_" + name + " = stale content of the pooled block buffer (blockSize bytes)"}
+			t.useAbstract(a)
+			o.add(ind, "let st : "+t.leanName+".St := { st with "+name+" := "+a.name+" }")
+		},
+	},
+	{
+		// positional read: fills M_B[M_LO:M_HI] with the file bytes from M_OFF on.  The error branch
+		// (short read / IO error) is NOT modelled: the read is assumed to succeed completely.
+		name: "read",
+		pattern: `if _, M_ERR := M_RECV.ReadWriter.Read(M_B[M_LO:M_HI], M_OFF); M_ERR != nil {
+	return M_ERR
+}`,
+		tmps:   []string{"M_ERR"},
+		writes: "M_B",
+		apply: func(t *tr, b map[string]ast.Node, o *out, ind string) {
+			name, cur := t.writeTarget(b["M_B"].(ast.Expr))
+			lo, hi := t.natArg(b["M_LO"].(ast.Expr)), t.natArg(b["M_HI"].(ast.Expr))
+			offx, offk := t.expr(b["M_OFF"].(ast.Expr))
+			if offk.k != kInt {
+				failAt(b["M_OFF"], "effect read: offset of kind %s", offk.goName())
+			}
+			t.noPending(b["M_B"])
+			t.useAbstract(absFile)
+			off := par(offx) + ".toNat"
+			o.add(ind, "let st : "+t.leanName+".St := { st with "+name+" := putAt "+cur+" "+lo+" (file.extract "+off+" ("+off+" + ("+hi+" - "+lo+"))) }")
 		},
 	},
 }
 
 // primitive table: library calls ↦ Lean primitives of the prelude
 type prim struct {
-	pattern  string // Go expression
-	lean     string // Lean function applied to the translated M_X
-	res      kind
-	abstract bool // the Lean function is a parameter of the generated definition
+	pattern  string    // Go call expression with metavariables
+	lean     string    // Lean function applied to the translated arguments
+	args     []primArg // metavariables that become Lean arguments, in order
+	res      []kind    // result kinds; two results: a Lean pair
+	abstract *absParam // the Lean function is an abstract parameter of the generated definition
+	write    string    // metavariable M_B: the call writes the bytes `lean args` to M_B[M_LO:] and
+	//                    returns their number (Go int); M_B must be a []byte variable
 }
 
+type primArg struct {
+	meta string
+	k    kind
+}
+
+var (
+	kI   = kind{k: kInt}
+	kU16 = kind{k: kUint, bits: 16}
+	kU32 = kind{k: kUint, bits: 32}
+	kU64 = kind{k: kUint, bits: 64}
+	kB   = kind{k: kBytes}
+)
+
 var prims = []prim{
-	{"binary.LittleEndian.Uint16(M_X)", "le16", kind{k: kUint, bits: 16}, false},
-	{"binary.LittleEndian.Uint32(M_X)", "le32", kind{k: kUint, bits: 32}, false},
-	{"crc32.ChecksumIEEE(M_X)", "crc32_ChecksumIEEE", kind{k: kUint, bits: 32}, true},
+	{pattern: "binary.LittleEndian.Uint16(M_X)", lean: "le16", args: []primArg{{"M_X", kB}}, res: []kind{kU16}},
+	{pattern: "binary.LittleEndian.Uint32(M_X)", lean: "le32", args: []primArg{{"M_X", kB}}, res: []kind{kU32}},
+	{pattern: "crc32.ChecksumIEEE(M_X)", lean: "crc32_ChecksumIEEE", args: []primArg{{"M_X", kB}}, res: []kind{kU32}, abstract: &absCrc},
+	{pattern: "binary.Varint(M_X)", lean: "binary_Varint", args: []primArg{{"M_X", kB}}, res: []kind{kI, kI}},
+	{pattern: "binary.Uvarint(M_X)", lean: "binary_Uvarint", args: []primArg{{"M_X", kB}}, res: []kind{kU64, kI}},
+	{pattern: "binary.PutVarint(M_B[M_LO:], M_V)", lean: "binary_PutVarint", args: []primArg{{"M_V", kI}}, res: []kind{kI}, write: "M_B"},
+	{pattern: "binary.PutUvarint(M_B[M_LO:], M_V)", lean: "binary_PutUvarint", args: []primArg{{"M_V", kU64}}, res: []kind{kI}, write: "M_B"},
 }
 
 // fixed Lean text in front of the generated definitions
@@ -192,6 +313,62 @@ def le16 (b : ByteArray) : Nat := (b.get! 0).toNat + 256 * (b.get! 1).toNat
 /-- ` + "`binary.LittleEndian.Uint32(b)`" + ` (Go panics when ` + "`len(b) < 4`" + `; not modelled) -/
 def le32 (b : ByteArray) : Nat :=
   (b.get! 0).toNat + 256 * (b.get! 1).toNat + 65536 * (b.get! 2).toNat + 16777216 * (b.get! 3).toNat
+
+/-- ` + "`make([]byte, n)`" + `: n zero bytes (Go panics for n < 0 or n too large; not modelled) -/
+def mkBytes (n : Nat) : ByteArray := ⟨Array.replicate n 0⟩
+
+/-- overwrite ` + "`b[i : i+len(s)]`" + ` with ` + "`s`" + ` (all writes into a byte buffer: ` + "`b[i] = x`" + `, ` + "`PutUvarint(b[i:], …)`" + `,
+    ` + "`Read(b[lo:hi], …)`" + `); agrees with Go when ` + "`i + len(s) ≤ len(b)`" + ` (otherwise Go panics; not modelled) -/
+def putAt (b : ByteArray) (i : Nat) (s : ByteArray) : ByteArray :=
+  b.extract 0 i ++ s ++ b.extract (i + s.size) b.size
+
+/-- ` + "`copy(dst, src)`" + `: the first ` + "`min(len(dst), len(src))`" + ` bytes of dst are replaced -/
+def copySlice (dst src : ByteArray) : ByteArray := src.extract 0 dst.size ++ dst.extract src.size dst.size
+
+/-- ` + "`binary.Uvarint(b)`" + ` ↦ the model's ` + "`Varint.uvarint`" + ` (same loop as the Go source) with Go's return
+    convention: ` + "`(0, 0)`" + ` when b ends inside the varint, ` + "`(0, -(i+1))`" + ` on 64-bit overflow detected at
+    byte i (i = 9 when the tenth byte is < 0x80 but > 1, i = 10 when the first ten bytes all have the
+    continuation bit) -/
+def binary_Uvarint (b : ByteArray) : Nat × Int :=
+  match XixiKV.Varint.uvarint b.data.toList with
+  | some (x, n) => (x, (n : Int))
+  | none => (0, if (b.get! 9).toNat < 128 then -10 else -11)
+
+/-- ` + "`binary.Varint(b)`" + `: zig-zag decoding on top of ` + "`Uvarint`" + `, as in the Go source
+    (` + "`x := int64(ux >> 1); if ux&1 != 0 { x = ^x }`" + `) -/
+def binary_Varint (b : ByteArray) : Int × Int :=
+  let r := binary_Uvarint b
+  (if r.1 % 2 = 0 then ((r.1 / 2 : Nat) : Int) else -((r.1 / 2 : Nat) : Int) - 1, r.2)
+
+/-- the bytes ` + "`binary.PutUvarint(buf, x)`" + ` writes (x < 2^64) ↦ the model's ` + "`Varint.putUvarint`" + ` -/
+def binary_PutUvarint (x : Nat) : ByteArray := ⟨(XixiKV.Varint.putUvarint x).toArray⟩
+
+/-- the bytes ` + "`binary.PutVarint(buf, x)`" + ` writes: zig-zag (` + "`ux := uint64(x) << 1; if x < 0 { ux = ^ux }`" + `) -/
+def binary_PutVarint (x : Int) : ByteArray :=
+  binary_PutUvarint (if 0 ≤ x then (2 * x).toNat else (-2 * x - 1).toNat)
+
+/-- how a loop body ends: falls through / ` + "`continue`" + `, ` + "`break`" + `, or ` + "`return v`" + ` -/
+inductive Ctl (σ ρ : Type) where
+  | next (st : σ)
+  | brk (st : σ)
+  | ret (v : ρ)
+
+/-- one step of a loop whose body ended with ` + "`c`" + `: run the remaining iterations ` + "`k`" + `, leave the loop
+    (` + "`.inl st`" + `), or return from the function (` + "`.inr v`" + `) -/
+def Ctl.step {σ ρ : Type} (c : Ctl σ ρ) (k : σ → Option (σ ⊕ ρ)) : Option (σ ⊕ ρ) :=
+  match c with
+  | .next st => k st
+  | .brk st => some (.inl st)
+  | .ret v => some (.inr v)
+
+/-- what follows such a loop: fuel exhausted ↦ ` + "`none`" + `, ` + "`return v`" + ` inside the loop ↦ ` + "`some v`" + `, loop left in
+    state st ↦ the rest of the function ` + "`k st`" + `.  (A function, not a ` + "`match`" + ` on the loop: tactics that meet
+    a ` + "`match`" + ` on ` + "`loop (n+1) st`" + ` try to evaluate the loop symbolically.) -/
+def Ctl.after {σ ρ : Type} (r : Option (σ ⊕ ρ)) (k : σ → Option ρ) : Option ρ :=
+  match r with
+  | none => none
+  | some (.inr v) => some v
+  | some (.inl st) => k st
 
 /-- what a translated function appends to its output buffer, in order -/
 inductive Seg where
@@ -294,7 +471,8 @@ type pkgInfo struct {
 	funcs map[string]*ast.FuncDecl // "Recv.name" or "name"
 	dups  map[string]bool          // declared more than once (build constraints are ignored)
 
-	consts     map[string]string // used named constants -> value
+	fns        map[string]*fnInfo // translated functions, by "Recv.name" / "name"
+	consts     map[string]string  // used named constants -> value
 	constOrder []string
 	structs    map[string][]field // used struct types
 	structOrd  []string
@@ -353,7 +531,7 @@ func loadPkg(repo, dir string) *pkgInfo {
 		fnames = append(fnames, n)
 	}
 	sort.Strings(fnames)
-	pi := &pkgInfo{dir: dir, name: names[0], funcs: map[string]*ast.FuncDecl{}, dups: map[string]bool{}, consts: map[string]string{}, structs: map[string][]field{}}
+	pi := &pkgInfo{dir: dir, name: names[0], funcs: map[string]*ast.FuncDecl{}, dups: map[string]bool{}, fns: map[string]*fnInfo{}, consts: map[string]string{}, structs: map[string][]field{}}
 	for _, n := range fnames {
 		pi.files = append(pi.files, p.Files[n])
 	}
@@ -514,8 +692,61 @@ func match(p, n ast.Node, b map[string]ast.Node) bool {
 	case *ast.ExprStmt:
 		nv, ok := n.(*ast.ExprStmt)
 		return ok && match(pv.X, nv.X, b)
+	case *ast.DeferStmt:
+		nv, ok := n.(*ast.DeferStmt)
+		return ok && match(pv.Call, nv.Call, b)
+	case *ast.ReturnStmt:
+		nv, ok := n.(*ast.ReturnStmt)
+		if !ok || len(pv.Results) != len(nv.Results) {
+			return false
+		}
+		for i := range pv.Results {
+			if !match(pv.Results[i], nv.Results[i], b) {
+				return false
+			}
+		}
+		return true
+	case *ast.BlockStmt:
+		nv, ok := n.(*ast.BlockStmt)
+		if !ok || len(pv.List) != len(nv.List) {
+			return false
+		}
+		for i := range pv.List {
+			if !match(pv.List[i], nv.List[i], b) {
+				return false
+			}
+		}
+		return true
+	case *ast.IfStmt:
+		nv, ok := n.(*ast.IfStmt)
+		if !ok || (pv.Init == nil) != (nv.Init == nil) || (pv.Else == nil) != (nv.Else == nil) {
+			return false
+		}
+		if pv.Init != nil && !match(pv.Init, nv.Init, b) {
+			return false
+		}
+		if pv.Else != nil && !match(pv.Else, nv.Else, b) {
+			return false
+		}
+		return match(pv.Cond, nv.Cond, b) && match(pv.Body, nv.Body, b)
 	}
 	return false
+}
+
+// rootIdent: the variable a (possibly sliced / parenthesised) []byte expression is a view of
+func rootIdent(e ast.Expr) *ast.Ident {
+	for {
+		switch v := e.(type) {
+		case *ast.ParenExpr:
+			e = v.X
+		case *ast.SliceExpr:
+			e = v.X
+		case *ast.Ident:
+			return v
+		default:
+			return nil
+		}
+	}
 }
 
 func countIdent(root ast.Node, name string) int {
@@ -569,7 +800,8 @@ type param struct {
 	goName string
 	name   string
 	k      kind
-	mut    bool // assigned in the body: lives in the state structure
+	mut    bool   // assigned (or, for []byte, written) in the body: lives in the state structure
+	field  string // receiver field parameters: the Go field name
 }
 
 type tr struct {
@@ -584,16 +816,39 @@ type tr struct {
 	paramByObj map[types.Object]int
 	skipped    map[types.Object]string // parameters outside the subset: any generic use is an error
 	recvFields []param                 // receiver fields read, in first-use order
-	abstract   []string                // abstract primitives used, in first-use order
+	abstract   []absParam              // abstract parameters used, in first-use order
 	locals     []local
 	localByObj map[types.Object]int
 	localNames map[string]bool
 	results    []kind
 	hasLoop    bool
-	hasEffects bool
+	hasEffects bool     // emits segments (List Seg)
+	hasOut     bool     // appends bytes to its output buffer (ByteArray)
 	loops      []string // generated helper definitions
 	nloop      int
-	inLoop     bool
+	inLoop     bool // translating a loop body in Ctl mode (return / break / continue allowed)
+
+	written map[types.Object]bool // []byte variables that are written (index assignment, copy, write primitives, read effect)
+	pending []pendingWrite        // writes of the write primitives met in the current simple statement
+}
+
+// a write primitive met while translating the expressions of a simple statement: the statement's
+// state update also sets `name := rhs` (evaluated in the old state, like everything else)
+type pendingWrite struct {
+	name string
+	rhs  string
+	at   ast.Node
+}
+
+// fnInfo: what a later function needs to know to call an already translated one
+type fnInfo struct {
+	leanName   string
+	abstract   []absParam
+	recvFields []param
+	params     []param
+	nparams    int // number of Go parameters (all of them must be translatable for a call)
+	results    []kind
+	callable   bool // no loop, no effects: the generated definition returns exactly the Go results
 }
 
 var leanReserved = map[string]bool{
@@ -607,6 +862,7 @@ var leanReserved = map[string]bool{
 	"syntax": true, "notation": true, "variable": true, "universe": true, "example": true, "axiom": true,
 	"opaque": true, "abbrev": true, "private": true, "protected": true, "noncomputable": true, "partial": true,
 	"unsafe": true, "nomatch": true, "nofun": true, "suffices": true, "calc": true, "this": true,
+	"out": true, "rv": true, "v": true, "file": true,
 }
 
 func mangle(n string) string {
@@ -639,8 +895,8 @@ func (t *tr) kindOf(ty types.Type, at ast.Node) kind {
 				var fs []field
 				for i := 0; i < st.NumFields(); i++ {
 					fk := t.kindOf(st.Field(i).Type(), at)
-					if !fk.isInt() {
-						failAt(at, "struct %s: field %s has non-integer type %s", name, st.Field(i).Name(), st.Field(i).Type())
+					if !fk.isInt() && fk.k != kBytes {
+						failAt(at, "struct %s: field %s has type %s (neither integer nor []byte)", name, st.Field(i).Name(), st.Field(i).Type())
 					}
 					fs = append(fs, field{st.Field(i).Name(), fk})
 				}
@@ -697,7 +953,7 @@ func zero(t *tr, k kind) string {
 	case kStruct:
 		var parts []string
 		for _, f := range t.p.structs[k.name] {
-			parts = append(parts, f.name+" := 0")
+			parts = append(parts, mangle(f.name)+" := "+zero(t, f.k))
 		}
 		return "{ " + strings.Join(parts, ", ") + " }"
 	}
@@ -792,13 +1048,51 @@ func (t *tr) constant(e ast.Expr, tv types.TypeAndValue) (lx, kind) {
 	return lx{s: s, atom: true}, k
 }
 
-func (t *tr) useAbstract(name string) {
-	for _, a := range t.abstract {
-		if a == name {
+func (t *tr) useAbstract(a absParam) {
+	for _, b := range t.abstract {
+		if b.name == a.name {
+			if b.ty != a.ty {
+				failAt(t.fd, "abstract parameter %s used at two types", a.name)
+			}
 			return
 		}
 	}
-	t.abstract = append(t.abstract, name)
+	for _, p := range t.params {
+		if p.name == a.name {
+			failAt(t.fd, "parameter %s clashes with an abstract parameter", a.name)
+		}
+	}
+	if t.localNames[a.name] {
+		failAt(t.fd, "local %s clashes with an abstract parameter", a.name)
+	}
+	t.abstract = append(t.abstract, a)
+}
+
+// noPending: write primitives are only allowed inside simple assignment statements
+func (t *tr) noPending(at ast.Node) {
+	if len(t.pending) > 0 {
+		failAt(at, "a call that writes into a buffer (%s) is only supported in a plain assignment statement", src(t.pending[0].at))
+	}
+}
+
+// writeTarget: a []byte variable (local, or parameter marked as written) used as the destination of a write
+func (t *tr) writeTarget(e ast.Expr) (name string, cur string) {
+	id, ok := ast.Unparen(e).(*ast.Ident)
+	if !ok {
+		failAt(e, "write destination %s is not a variable", src(e))
+	}
+	obj := t.p.info.Uses[id]
+	if !t.written[obj] {
+		failAt(e, "internal: %s was not recognised as a written buffer by the pre-scan", id.Name)
+	}
+	if i, ok := t.localByObj[obj]; ok && t.locals[i].k.k == kBytes {
+		return t.locals[i].name, "st." + t.locals[i].name
+	}
+	if i, ok := t.paramByObj[obj]; ok && t.params[i].k.k == kBytes && t.params[i].mut {
+		return t.params[i].name, "st." + t.params[i].name
+	}
+	failAt(e, "write destination %s is not a []byte variable", src(e))
+	return
 }
 
 func (t *tr) bytesExpr(e ast.Expr) lx {
@@ -931,23 +1225,29 @@ func (t *tr) expr(e ast.Expr) (lx, kind) {
 				if !k.isInt() {
 					failAt(e, "receiver field %s has non-integer type", src(e))
 				}
-				name := mangle(id.Name + "_" + v.Sel.Name)
-				found := false
-				for _, rf := range t.recvFields {
-					if rf.name == name {
-						found = true
-					}
-				}
-				if !found {
-					t.recvFields = append(t.recvFields, param{goName: src(e), name: name, k: k})
-				}
-				return lx{s: name, atom: true}, k
+				return lx{s: t.recvField(v.Sel.Name, k), atom: true}, k
 			}
 			// field of a struct local
 			if i, ok := t.localByObj[obj]; ok && t.locals[i].k.k == kStruct {
 				for _, f := range t.p.structs[t.locals[i].k.name] {
 					if f.name == v.Sel.Name {
-						return lx{s: "st." + t.locals[i].name + "." + f.name, atom: true}, f.k
+						return lx{s: "st." + t.locals[i].name + "." + mangle(f.name), atom: true}, f.k
+					}
+				}
+			}
+			// field of a struct (pointer) parameter: read only
+			if i, ok := t.paramByObj[obj]; ok && t.params[i].k.k == kStruct {
+				for _, f := range t.p.structs[t.params[i].k.name] {
+					if f.name == v.Sel.Name {
+						return lx{s: t.params[i].name + "." + mangle(f.name), atom: true}, f.k
+					}
+				}
+			}
+			// error variable of an imported package (io.EOF)
+			if _, isPkg := obj.(*types.PkgName); isPkg {
+				if vr, ok := t.p.info.Uses[v.Sel].(*types.Var); ok {
+					if k := t.kindOf(vr.Type(), e); k.k == kErr {
+						return app("some \"" + id.Name + "." + v.Sel.Name + "\""), k
 					}
 				}
 			}
@@ -993,19 +1293,16 @@ func (t *tr) expr(e ast.Expr) (lx, kind) {
 			if fk == nil {
 				failAt(el, "unknown field %s", key.Name)
 			}
-			x, xk := t.expr(kv.Value)
-			if xk != fk.k {
-				failAt(el, "field %s: kind %s expected, found %s", key.Name, fk.k.goName(), xk.goName())
-			}
+			x := t.exprWant(kv.Value, fk.k)
 			vals[key.Name] = x.s
 		}
 		var parts []string
 		for _, f := range fs {
 			val, ok := vals[f.name]
 			if !ok {
-				val = "0"
+				val = zero(t, f.k)
 			}
-			parts = append(parts, f.name+" := "+val)
+			parts = append(parts, mangle(f.name)+" := "+val)
 		}
 		return lx{s: "{ " + strings.Join(parts, ", ") + " }", atom: true}, k
 	case *ast.BinaryExpr:
@@ -1022,6 +1319,16 @@ func (t *tr) expr(e ast.Expr) (lx, kind) {
 			}
 			return lx{s: opd(x) + " " + o + " " + opd(y)}, kx
 		case token.EQL, token.NEQ, token.LSS, token.LEQ, token.GTR, token.GEQ:
+			if t.isNil(v.X) || t.isNil(v.Y) || t.isErr(v.X) || t.isErr(v.Y) {
+				// error values: nil ↦ none, a package level error variable ↦ some "name"; Go compares
+				// the interface values (pointer identity of distinct errors.New results)
+				if v.Op != token.EQL && v.Op != token.NEQ {
+					failAt(e, "ordering comparison of errors")
+				}
+				x := t.exprWant(v.X, kind{k: kErr})
+				y := t.exprWant(v.Y, kind{k: kErr})
+				return lx{s: opd(x) + " " + cmpLean[v.Op] + " " + opd(y)}, kind{k: kBool}
+			}
 			x, kx := t.expr(v.X)
 			y, ky := t.expr(v.Y)
 			if kx != ky || !kx.isInt() {
@@ -1069,6 +1376,12 @@ func (t *tr) expr(e ast.Expr) (lx, kind) {
 						b := t.bytesExpr(v.Args[0])
 						return lx{s: "(" + par(b) + ".size : Int)", atom: true}, kind{k: kInt}
 					}
+				case "make":
+					if len(v.Args) == 2 {
+						if tv, ok := t.p.info.Types[v.Args[0]]; ok && tv.IsType() && t.kindOf(tv.Type, e).k == kBytes {
+							return app("mkBytes " + t.natArg(v.Args[1])), kind{k: kBytes}
+						}
+					}
 				case "min", "max":
 					if len(v.Args) == 2 {
 						x, kx := t.expr(v.Args[0])
@@ -1082,17 +1395,13 @@ func (t *tr) expr(e ast.Expr) (lx, kind) {
 				failAt(e, "builtin %s is outside the subset: %s", id.Name, src(e))
 			}
 		}
-		for _, pr := range prims {
-			b := map[string]ast.Node{}
-			if match(parseExpr(pr.pattern), v, b) {
-				arg := t.bytesExpr(b["M_X"].(ast.Expr))
-				if pr.abstract {
-					t.useAbstract(pr.lean)
-				}
-				return app(pr.lean + " " + par(arg)), pr.res
+		if x, ks, ok := t.call(v); ok {
+			if len(ks) != 1 {
+				failAt(e, "call %s with %d results in a single-value context", src(e), len(ks))
 			}
+			return x, ks[0]
 		}
-		failAt(e, "call %s is neither a conversion, a supported builtin, nor in the primitive table", src(e))
+		failAt(e, "call %s is neither a conversion, a supported builtin, in the primitive table, nor a translated function", src(e))
 	}
 	failAt(e, "expression %s (%T) is outside the subset", src(e), e)
 	return lx{}, kind{}
@@ -1118,6 +1427,270 @@ func (t *tr) exprWant(e ast.Expr, want kind) lx {
 	return x
 }
 
+func (t *tr) isNil(e ast.Expr) bool {
+	id, ok := ast.Unparen(e).(*ast.Ident)
+	if !ok || id.Name != "nil" {
+		return false
+	}
+	_, isNil := t.p.info.Uses[id].(*types.Nil)
+	return isNil
+}
+
+func (t *tr) isErr(e ast.Expr) bool {
+	ty := t.typeOfExpr(e)
+	if ty == nil {
+		return false
+	}
+	named, ok := types.Unalias(ty).(*types.Named)
+	return ok && named.Obj().Pkg() == nil && named.Obj().Name() == "error"
+}
+
+// recvField: the extra parameter standing for an integer field of the receiver
+func (t *tr) recvField(fieldName string, k kind) string {
+	name := mangle(t.recvName + "_" + fieldName)
+	for _, rf := range t.recvFields {
+		if rf.name == name {
+			return name
+		}
+	}
+	t.recvFields = append(t.recvFields, param{goName: t.recvName + "." + fieldName, name: name, k: k, field: fieldName})
+	return name
+}
+
+// tuple projection of an n-tuple `a × b × c`
+func proj(x lx, i, n int) string {
+	if n == 1 {
+		return x.s
+	}
+	s := par(x)
+	for j := 0; j < i; j++ {
+		s += ".2"
+	}
+	if i < n-1 {
+		s += ".1"
+	}
+	return s
+}
+
+// call: a call of the primitive table or of an already translated function; returns the Lean
+// expression of the result (a tuple for several results) and the result kinds
+func (t *tr) call(v *ast.CallExpr) (lx, []kind, bool) {
+	for _, pr := range prims {
+		b := map[string]ast.Node{}
+		if !match(parseExpr(pr.pattern), v, b) {
+			continue
+		}
+		var args []string
+		for _, a := range pr.args {
+			args = append(args, par(t.exprWant(b[a.meta].(ast.Expr), a.k)))
+		}
+		if pr.abstract != nil {
+			t.useAbstract(*pr.abstract)
+		}
+		c := app(pr.lean + " " + strings.Join(args, " "))
+		if pr.write != "" {
+			// the bytes go to M_B[M_LO:], the value of the call is their number
+			name, cur := t.writeTarget(b[pr.write].(ast.Expr))
+			lo := t.natArg(b["M_LO"].(ast.Expr))
+			t.pending = append(t.pending, pendingWrite{name: name, rhs: "putAt " + cur + " " + lo + " (" + c.s + ")", at: v})
+			return lx{s: "((" + c.s + ").size : Int)", atom: true}, pr.res, true
+		}
+		return c, pr.res, true
+	}
+	// a function / a method on the same receiver, translated earlier
+	var fobj *types.Func
+	onRecv := false
+	switch f := v.Fun.(type) {
+	case *ast.Ident:
+		fobj, _ = t.p.info.Uses[f].(*types.Func)
+	case *ast.SelectorExpr:
+		if id, ok := f.X.(*ast.Ident); ok && t.recvObj != nil && t.p.info.Uses[id] == t.recvObj {
+			fobj, _ = t.p.info.Uses[f.Sel].(*types.Func)
+			onRecv = true
+		}
+	}
+	if fobj == nil || fobj.Pkg() != t.p.tpkg {
+		return lx{}, nil, false
+	}
+	key := fobj.Name()
+	if sig, ok := fobj.Type().(*types.Signature); ok && sig.Recv() != nil {
+		if !onRecv {
+			return lx{}, nil, false
+		}
+		rt := sig.Recv().Type()
+		if ptr, ok := rt.(*types.Pointer); ok {
+			rt = ptr.Elem()
+		}
+		named, ok := types.Unalias(rt).(*types.Named)
+		if !ok {
+			return lx{}, nil, false
+		}
+		key = named.Obj().Name() + "." + key
+	} else if onRecv {
+		return lx{}, nil, false
+	}
+	fi := t.p.fns[key]
+	if fi == nil {
+		failAt(v, "call of %s, which is not translated (it must precede %s in the whitelist)", key, t.fd.Name.Name)
+	}
+	if !fi.callable || len(fi.params) != fi.nparams || len(v.Args) != fi.nparams || v.Ellipsis != token.NoPos {
+		failAt(v, "call of %s: only functions without loops, effects and untranslatable parameters can be called", key)
+	}
+	var parts []string
+	parts = append(parts, fi.leanName)
+	for _, a := range fi.abstract {
+		t.useAbstract(a)
+		parts = append(parts, a.name)
+	}
+	for _, rf := range fi.recvFields {
+		parts = append(parts, t.recvField(rf.field, rf.k))
+	}
+	for i, p := range fi.params {
+		parts = append(parts, par(t.exprWant(v.Args[i], p.k)))
+	}
+	if len(parts) == 1 {
+		return lx{s: parts[0], atom: true}, fi.results, true
+	}
+	return app(strings.Join(parts, " ")), fi.results, true
+}
+
+// aliasRoots: the variables whose storage the value of a []byte expression may share
+func (t *tr) aliasRoots(e ast.Expr) []*ast.Ident {
+	switch v := ast.Unparen(e).(type) {
+	case *ast.Ident:
+		if t.isNil(v) {
+			return nil
+		}
+		return []*ast.Ident{v}
+	case *ast.SliceExpr:
+		return t.aliasRoots(v.X)
+	case *ast.SelectorExpr:
+		if id, ok := v.X.(*ast.Ident); ok {
+			return []*ast.Ident{id}
+		}
+	case *ast.CallExpr:
+		if id, ok := v.Fun.(*ast.Ident); ok && id.Name == "make" {
+			if _, isBuiltin := t.p.info.Uses[id].(*types.Builtin); isBuiltin {
+				return nil
+			}
+		}
+		// a call may return a view of any of its []byte arguments
+		var r []*ast.Ident
+		for _, a := range v.Args {
+			if ty := t.typeOfExpr(a); ty != nil {
+				if _, isSlice := ty.Underlying().(*types.Slice); isSlice {
+					r = append(r, t.aliasRoots(a)...)
+				}
+			}
+		}
+		return r
+	}
+	failAt(e, "cannot determine what %s aliases", src(e))
+	return nil
+}
+
+// writesTo: does the statement write the []byte variable obj?
+func (t *tr) writesTo(n ast.Node, obj types.Object) bool {
+	found := false
+	ast.Inspect(n, func(x ast.Node) bool {
+		for _, w := range t.writeSites(x) {
+			if t.p.info.Uses[w] == obj {
+				found = true
+			}
+		}
+		return !found
+	})
+	return found
+}
+
+// writeSites: the []byte variables a single AST node writes (not looking into its children,
+// except for the statement sequences of the effect table, which are recognised at their first statement)
+func (t *tr) writeSites(x ast.Node) []*ast.Ident {
+	var r []*ast.Ident
+	add := func(e ast.Expr) {
+		if id := rootIdent(e); id != nil {
+			r = append(r, id)
+		}
+	}
+	switch v := x.(type) {
+	case *ast.AssignStmt:
+		for _, l := range v.Lhs {
+			if ix, ok := l.(*ast.IndexExpr); ok {
+				add(ix.X)
+			}
+		}
+	case *ast.IncDecStmt:
+		if ix, ok := v.X.(*ast.IndexExpr); ok {
+			add(ix.X)
+		}
+	case *ast.CallExpr:
+		if id, ok := v.Fun.(*ast.Ident); ok && id.Name == "copy" && len(v.Args) == 2 {
+			add(v.Args[0])
+		}
+		for _, pr := range prims {
+			if pr.write == "" {
+				continue
+			}
+			b := map[string]ast.Node{}
+			if match(parseExpr(pr.pattern), v, b) {
+				add(b[pr.write].(ast.Expr))
+			}
+		}
+	case *ast.BlockStmt:
+		for i := range v.List {
+			for _, ef := range effects {
+				if ef.writes == "" {
+					continue
+				}
+				pats := parseStmts(ef.pattern)
+				if i+len(pats) > len(v.List) {
+					continue
+				}
+				b := map[string]ast.Node{}
+				ok := true
+				for j, p := range pats {
+					if !match(p, v.List[i+j], b) {
+						ok = false
+						break
+					}
+				}
+				if ok {
+					add(b[ef.writes].(ast.Expr))
+				}
+			}
+		}
+	}
+	return r
+}
+
+// checkAlias: value semantics for []byte is only sound when a written buffer is never visible
+// under two names.  For `x = e` / `x := e` of kind []byte:
+//   - if x itself is written somewhere, e must be fresh (make / nil);
+//   - if e may be a view of a written buffer w, x must be declared by this very statement, and no
+//     statement after it in the same block (the whole scope of x) may write w.
+func (t *tr) checkAlias(lhs *ast.Ident, rhs ast.Expr, define bool, rest []ast.Stmt) {
+	roots := t.aliasRoots(rhs)
+	obj := t.p.info.Defs[lhs]
+	if obj == nil {
+		obj = t.p.info.Uses[lhs]
+	}
+	if t.written[obj] && len(roots) > 0 {
+		failAt(lhs, "the written buffer %s is assigned from %s, which is not fresh (aliasing is outside the subset)", lhs.Name, src(rhs))
+	}
+	for _, r := range roots {
+		robj := t.p.info.Uses[r]
+		if !t.written[robj] {
+			continue
+		}
+		if !define || t.p.info.Defs[lhs] == nil {
+			failAt(lhs, "%s becomes a view of the written buffer %s outside a declaration (aliasing is outside the subset)", lhs.Name, r.Name)
+		}
+		if t.writesTo(&ast.BlockStmt{List: rest}, robj) {
+			failAt(lhs, "%s is a view of the buffer %s, which is written again within the scope of %s (aliasing is outside the subset)", lhs.Name, r.Name, lhs.Name)
+		}
+	}
+}
+
 // ---- statements ------------------------------------------------------------------------------
 
 type out struct{ lines []string }
@@ -1129,8 +1702,13 @@ func (t *tr) declare(id *ast.Ident, k kind) string {
 	if obj == nil {
 		failAt(id, "no definition object for %s", id.Name)
 	}
-	if k.k == kBool || k.k == kBytes || k.k == kErr {
+	if k.k == kBool {
 		failAt(id, "local %s of kind %s is outside the subset", id.Name, k.goName())
+	}
+	for _, a := range t.abstract {
+		if a.name == mangle(id.Name) {
+			failAt(id, "local %s clashes with an abstract parameter", id.Name)
+		}
 	}
 	// cross-check with go/types when it knows the type
 	if ty := obj.Type(); ty != nil {
@@ -1181,8 +1759,8 @@ func (t *tr) lvalue(e ast.Expr) (name string, k kind, upd func(rhs string) strin
 				for _, f := range t.p.structs[l.k.name] {
 					if f.name == v.Sel.Name {
 						return l.name, f.k, func(r string) string {
-							return l.name + " := { st." + l.name + " with " + f.name + " := " + r + " }"
-						}, lx{s: "st." + l.name + "." + f.name, atom: true}
+							return l.name + " := { st." + l.name + " with " + mangle(f.name) + " := " + r + " }"
+						}, lx{s: "st." + l.name + "." + mangle(f.name), atom: true}
 					}
 				}
 			}
@@ -1198,11 +1776,12 @@ var opOfAssign = map[token.Token]token.Token{
 	token.SHR_ASSIGN: token.SHR,
 }
 
-func hasReturn(n ast.Node) bool {
+// hasExit: does the node contain a return, break or continue (outside function literals)?
+func hasExit(n ast.Node) bool {
 	found := false
 	ast.Inspect(n, func(x ast.Node) bool {
 		switch x.(type) {
-		case *ast.ReturnStmt:
+		case *ast.ReturnStmt, *ast.BranchStmt:
 			found = true
 		case *ast.FuncLit:
 			return false
@@ -1212,13 +1791,13 @@ func hasReturn(n ast.Node) bool {
 	return found
 }
 
-// does every path through the statement list end in a return?
+// does every path through the statement list end in a return / break / continue?
 func terminates(list []ast.Stmt) bool {
 	if len(list) == 0 {
 		return false
 	}
 	switch v := list[len(list)-1].(type) {
-	case *ast.ReturnStmt:
+	case *ast.ReturnStmt, *ast.BranchStmt:
 		return true
 	case *ast.BlockStmt:
 		return terminates(v.List)
@@ -1240,7 +1819,19 @@ func terminates(list []ast.Stmt) bool {
 
 func (t *tr) emitSeg(o *out, ind, seg string) {
 	t.hasEffects = true
-	o.add(ind, "let st := { st with segs := st.segs ++ ["+seg+"] }")
+	o.add(ind, "let st : "+t.leanName+".St := { st with segs := st.segs ++ ["+seg+"] }")
+}
+
+// occurrences of the variable obj below root
+func (t *tr) countObj(root ast.Node, obj types.Object) int {
+	c := 0
+	ast.Inspect(root, func(n ast.Node) bool {
+		if id, ok := n.(*ast.Ident); ok && (t.p.info.Uses[id] == obj || t.p.info.Defs[id] == obj) {
+			c++
+		}
+		return true
+	})
+	return c
 }
 
 // tryEffect: does a table entry match the statements starting at list[i]? returns the number of
@@ -1287,37 +1878,136 @@ func (t *tr) tryEffect(list []ast.Stmt, i int, o *out, ind string) int {
 			if !isId {
 				failAt(list[i], "effect %s: temporary is not an identifier", ef.name)
 			}
+			obj := t.p.info.Defs[id]
+			if obj == nil {
+				failAt(list[i], "effect %s: temporary %s is not declared by the matched statements", ef.name, id.Name)
+			}
 			inPat := 0
 			for _, p := range pats {
 				inPat += countIdent(p, tmp)
 			}
-			if countIdent(t.fd.Body, id.Name) != inPat {
+			if t.countObj(t.fd.Body, obj) != inPat {
 				failAt(list[i], "effect %s: temporary %s is also used outside the matched statements", ef.name, id.Name)
 			}
 		}
-		t.emitSeg(o, ind, ef.emit(t, b))
+		t.pending = nil
+		ef.apply(t, b, o, ind)
 		return len(pats)
 	}
 	return 0
 }
 
-// simple (non-control) statement -> one `let st := { st with … }` line
-func (t *tr) simple(s ast.Stmt, o *out, ind string) bool {
+// simple (non-control) statement -> one `let st := { st with … }` line; rest = the statements that
+// follow in the same block (alias check)
+func (t *tr) simple(s ast.Stmt, o *out, ind string, rest []ast.Stmt) bool {
+	t.pending = nil
+	var upds []string
+	seen := map[string]bool{}
+	addUpd := func(name, u string) {
+		if seen[name] {
+			failAt(s, "two assignments to %s in one statement", name)
+		}
+		seen[name] = true
+		upds = append(upds, u)
+	}
+	flush := func() {
+		for _, p := range t.pending {
+			// the buffer must not be mentioned elsewhere in the statement (Go's evaluation order
+			// between the call and other reads is not what `st` = old state gives)
+			n := 0
+			ast.Inspect(s, func(x ast.Node) bool {
+				if id, ok := x.(*ast.Ident); ok && mangle(id.Name) == p.name {
+					n++
+				}
+				return true
+			})
+			if n != 1 {
+				failAt(s, "the buffer written by %s is mentioned more than once in the statement", src(p.at))
+			}
+			addUpd(p.name, p.name+" := "+p.rhs)
+		}
+		t.pending = nil
+		if len(upds) > 0 {
+			o.add(ind, "let st : "+t.leanName+".St := { st with "+strings.Join(upds, ", ")+" }")
+		}
+	}
 	switch v := s.(type) {
 	case *ast.EmptyStmt:
 		return true
-	case *ast.AssignStmt:
-		if len(v.Lhs) != len(v.Rhs) {
-			failAt(s, "assignment with %d targets and %d values is outside the subset", len(v.Lhs), len(v.Rhs))
+	case *ast.ExprStmt:
+		// copy(dst, src)
+		ce, ok := v.X.(*ast.CallExpr)
+		if !ok {
+			return false
 		}
-		var upds []string
+		id, ok := ce.Fun.(*ast.Ident)
+		if !ok || id.Name != "copy" || len(ce.Args) != 2 {
+			return false
+		}
+		if _, isBuiltin := t.p.info.Uses[id].(*types.Builtin); !isBuiltin {
+			return false
+		}
+		name, cur := t.writeTarget(ce.Args[0])
+		x := t.bytesExpr(ce.Args[1])
+		t.noPending(s)
+		addUpd(name, name+" := copySlice "+cur+" "+par(x))
+		flush()
+		return true
+	case *ast.AssignStmt:
 		switch {
+		case len(v.Rhs) == 1 && len(v.Lhs) > 1:
+			// a, b := f(…) / a, b = f(…): a call of the primitive table or of a translated function
+			if v.Tok != token.DEFINE && v.Tok != token.ASSIGN {
+				failAt(s, "assignment operator %s with several targets", v.Tok)
+			}
+			ce, ok := ast.Unparen(v.Rhs[0]).(*ast.CallExpr)
+			if !ok {
+				failAt(s, "multi-value assignment from %s is outside the subset", src(v.Rhs[0]))
+			}
+			x, ks, ok := t.call(ce)
+			if !ok {
+				failAt(s, "call %s is neither in the primitive table nor a translated function", src(ce))
+			}
+			if len(ks) != len(v.Lhs) {
+				failAt(s, "%d targets for %d results", len(v.Lhs), len(ks))
+			}
+			o.add(ind, "let rv := "+x.s)
+			rv := lx{s: "rv", atom: true}
+			for i, l := range v.Lhs {
+				id, isId := l.(*ast.Ident)
+				if isId && id.Name == "_" {
+					continue
+				}
+				val := proj(rv, i, len(ks))
+				if v.Tok == token.DEFINE && isId && t.p.info.Defs[id] != nil {
+					if ks[i].k == kBytes {
+						t.checkAlias(id, v.Rhs[0], true, rest)
+					}
+					name := t.declare(id, ks[i])
+					addUpd(name, name+" := "+val)
+					continue
+				}
+				name, k, upd, _ := t.lvalue(l)
+				if k != ks[i] {
+					failAt(l, "kind mismatch in assignment to %s: %s expected, the call yields %s", src(l), k.goName(), ks[i].goName())
+				}
+				if k.k == kBytes {
+					if !isId {
+						failAt(l, "[]byte assignment target %s", src(l))
+					}
+					t.checkAlias(id, v.Rhs[0], false, rest)
+				}
+				addUpd(name, upd(val))
+			}
+		case len(v.Lhs) != len(v.Rhs):
+			failAt(s, "assignment with %d targets and %d values is outside the subset", len(v.Lhs), len(v.Rhs))
 		case v.Tok == token.DEFINE:
 			// all right-hand sides are evaluated in the old state
 			type pend struct {
 				id *ast.Ident
 				x  lx
 				k  kind
+				e  ast.Expr
 			}
 			var ps []pend
 			for i, l := range v.Lhs {
@@ -1326,7 +2016,7 @@ func (t *tr) simple(s ast.Stmt, o *out, ind string) bool {
 					failAt(l, "define target")
 				}
 				x, k := t.expr(v.Rhs[i])
-				ps = append(ps, pend{id, x, k})
+				ps = append(ps, pend{id, x, k, v.Rhs[i]})
 			}
 			for _, p := range ps {
 				if p.id.Name == "_" {
@@ -1334,36 +2024,55 @@ func (t *tr) simple(s ast.Stmt, o *out, ind string) bool {
 				}
 				if t.p.info.Defs[p.id] == nil {
 					// `a, b := …` re-assigning an existing a
-					_, k, upd, _ := t.lvalue(p.id)
+					name, k, upd, _ := t.lvalue(p.id)
 					if k != p.k {
 						failAt(p.id, "kind mismatch in assignment to %s", p.id.Name)
 					}
-					upds = append(upds, upd(p.x.s))
+					if k.k == kBytes {
+						t.checkAlias(p.id, p.e, false, rest)
+					}
+					addUpd(name, upd(p.x.s))
 					continue
 				}
+				if p.k.k == kBytes {
+					t.checkAlias(p.id, p.e, true, rest)
+				}
 				name := t.declare(p.id, p.k)
-				upds = append(upds, name+" := "+p.x.s)
+				addUpd(name, name+" := "+p.x.s)
 			}
 		case v.Tok == token.ASSIGN:
-			seen := map[string]bool{}
 			for i, l := range v.Lhs {
 				if id, ok := l.(*ast.Ident); ok && id.Name == "_" {
 					failAt(s, "assignment to _ outside the effect table: %s", src(s))
 				}
-				name, k, upd, _ := t.lvalue(l)
-				if seen[name] {
-					failAt(s, "two assignments to %s in one statement", name)
+				if ix, ok := l.(*ast.IndexExpr); ok {
+					// b[i] = x on a written []byte variable
+					name, cur := t.writeTarget(ix.X)
+					idx := t.natArg(ix.Index)
+					x, k := t.expr(v.Rhs[i])
+					if k != (kind{k: kUint, bits: 8}) {
+						failAt(s, "byte expected in %s, found %s", src(s), k.goName())
+					}
+					addUpd(name, name+" := putAt "+cur+" "+idx+" (ByteArray.mk #[UInt8.ofNat "+par(x)+"])")
+					continue
 				}
-				seen[name] = true
+				name, k, upd, _ := t.lvalue(l)
 				x := t.exprWant(v.Rhs[i], k)
-				upds = append(upds, upd(x.s))
+				if k.k == kBytes {
+					id, isId := l.(*ast.Ident)
+					if !isId {
+						failAt(l, "[]byte assignment target %s", src(l))
+					}
+					t.checkAlias(id, v.Rhs[i], false, rest)
+				}
+				addUpd(name, upd(x.s))
 			}
 		default:
 			op, ok := opOfAssign[v.Tok]
 			if !ok || len(v.Lhs) != 1 {
 				failAt(s, "assignment operator %s is outside the subset", v.Tok)
 			}
-			_, k, upd, cur := t.lvalue(v.Lhs[0])
+			name, k, upd, cur := t.lvalue(v.Lhs[0])
 			var r lx
 			var rk kind
 			if op == token.SHL || op == token.SHR {
@@ -1375,14 +2084,12 @@ func (t *tr) simple(s ast.Stmt, o *out, ind string) bool {
 			if rk != k {
 				failAt(s, "kind mismatch")
 			}
-			upds = append(upds, upd(r.s))
+			addUpd(name, upd(r.s))
 		}
-		if len(upds) > 0 {
-			o.add(ind, "let st := { st with "+strings.Join(upds, ", ")+" }")
-		}
+		flush()
 		return true
 	case *ast.IncDecStmt:
-		_, k, upd, cur := t.lvalue(v.X)
+		name, k, upd, cur := t.lvalue(v.X)
 		if !k.isInt() {
 			failAt(s, "++/-- on non-integer")
 		}
@@ -1397,7 +2104,8 @@ func (t *tr) simple(s ast.Stmt, o *out, ind string) bool {
 		default:
 			r = "(" + cur.s + " + " + pow2(k.bits) + " - 1) % " + pow2(k.bits)
 		}
-		o.add(ind, "let st := { st with "+upd(r)+" }")
+		addUpd(name, upd(r))
+		flush()
 		return true
 	case *ast.DeclStmt:
 		gd, ok := v.Decl.(*ast.GenDecl)
@@ -1409,7 +2117,6 @@ func (t *tr) simple(s ast.Stmt, o *out, ind string) bool {
 			if len(vs.Values) != 0 && len(vs.Values) != len(vs.Names) {
 				failAt(s, "var declaration with a multi-value initialiser")
 			}
-			var upds []string
 			for i, id := range vs.Names {
 				if id.Name == "_" {
 					failAt(s, "var _")
@@ -1421,14 +2128,18 @@ func (t *tr) simple(s ast.Stmt, o *out, ind string) bool {
 					}
 					k := t.kindOf(obj.Type(), id)
 					name := t.declare(id, k)
-					upds = append(upds, name+" := "+zero(t, k))
+					addUpd(name, name+" := "+zero(t, k))
 					continue
 				}
 				x, k := t.expr(vs.Values[i])
+				if k.k == kBytes {
+					t.checkAlias(id, vs.Values[i], true, rest)
+				}
 				name := t.declare(id, k)
-				upds = append(upds, name+" := "+x.s)
+				addUpd(name, name+" := "+x.s)
 			}
-			o.add(ind, "let st := { st with "+strings.Join(upds, ", ")+" }")
+			flush()
+			upds, seen = nil, map[string]bool{}
 		}
 		return true
 	}
@@ -1446,7 +2157,17 @@ func elseList(s ast.Stmt) []ast.Stmt {
 	}
 }
 
-// state transformer: statements without return; leaves the new state in `st`
+func (t *tr) cond(e ast.Expr) lx {
+	t.pending = nil
+	c, ck := t.expr(e)
+	if ck.k != kBool {
+		failAt(e, "condition is not a bool")
+	}
+	t.noPending(e)
+	return c
+}
+
+// state transformer: statements without return / break / continue; leaves the new state in `st`
 func (t *tr) transform(list []ast.Stmt, o *out, ind string) {
 	for i := 0; i < len(list); {
 		if n := t.tryEffect(list, i, o, ind); n > 0 {
@@ -1455,7 +2176,7 @@ func (t *tr) transform(list []ast.Stmt, o *out, ind string) {
 		}
 		s := list[i]
 		i++
-		if t.simple(s, o, ind) {
+		if t.simple(s, o, ind, list[i:]) {
 			continue
 		}
 		switch v := s.(type) {
@@ -1465,11 +2186,8 @@ func (t *tr) transform(list []ast.Stmt, o *out, ind string) {
 			if v.Init != nil {
 				failAt(s, "if with an init statement is outside the subset")
 			}
-			c, ck := t.expr(v.Cond)
-			if ck.k != kBool {
-				failAt(v.Cond, "condition is not a bool")
-			}
-			o.add(ind, "let st :=")
+			c := t.cond(v.Cond)
+			o.add(ind, "let st : "+t.leanName+".St :=")
 			o.add(ind, "  if "+c.s+" then")
 			t.transform(v.Body.List, o, ind+"    ")
 			o.add(ind, "    st")
@@ -1484,17 +2202,32 @@ func (t *tr) transform(list []ast.Stmt, o *out, ind string) {
 	}
 }
 
-func (t *tr) ret(vals []string) string {
-	r := vals[0]
-	atom := len(vals) == 1 && regexp.MustCompile(`^[A-Za-z0-9_.]+$`).MatchString(r)
-	if len(vals) > 1 {
+var atomRe = regexp.MustCompile(`^[A-Za-z0-9_.]+$`)
+
+// the value a `return e1, …, en` yields: the Go results, then the emitted segments / output bytes
+func (t *tr) retInner(vals []string) (string, bool) {
+	r, atom := "()", true
+	switch {
+	case len(vals) == 1:
+		r, atom = vals[0], atomRe.MatchString(vals[0])
+	case len(vals) > 1:
 		r = "(" + strings.Join(vals, ", ") + ")"
-		atom = true
 	}
 	if t.hasEffects {
-		r = "(" + r + ", st.segs)"
-		atom = true
+		r, atom = "("+r+", st.segs)", true
 	}
+	if t.hasOut {
+		if len(vals) == 0 {
+			r, atom = "st.out", true
+		} else {
+			r, atom = "("+r+", st.out)", true
+		}
+	}
+	return r, atom
+}
+
+func (t *tr) ret(vals []string) string {
+	r, atom := t.retInner(vals)
 	if t.hasLoop {
 		if !atom {
 			r = "(" + r + ")"
@@ -1504,7 +2237,8 @@ func (t *tr) ret(vals []string) string {
 	return r
 }
 
-// terminal: statements all of whose paths end in a return; yields the function result
+// terminal: statements all of whose paths end in a return (function level) or in a return / break /
+// continue / the end of the body (loop body in Ctl mode); yields the function result resp. a `Ctl`
 func (t *tr) terminal(list []ast.Stmt, o *out, ind string, top bool) {
 	for i := 0; i < len(list); {
 		if n := t.tryEffect(list, i, o, ind); n > 0 {
@@ -1513,7 +2247,7 @@ func (t *tr) terminal(list []ast.Stmt, o *out, ind string, top bool) {
 		}
 		s := list[i]
 		i++
-		if t.simple(s, o, ind) {
+		if t.simple(s, o, ind, list[i:]) {
 			continue
 		}
 		switch v := s.(type) {
@@ -1521,32 +2255,52 @@ func (t *tr) terminal(list []ast.Stmt, o *out, ind string, top bool) {
 			if len(v.Results) != len(t.results) {
 				failAt(s, "return with %d values, %d expected (naked returns are outside the subset)", len(v.Results), len(t.results))
 			}
+			t.pending = nil
 			var vals []string
 			for j, r := range v.Results {
 				vals = append(vals, t.exprWant(r, t.results[j]).s)
 			}
-			o.add(ind, t.ret(vals))
+			t.noPending(s)
+			if t.inLoop {
+				r, atom := t.retInner(vals)
+				if !atom {
+					r = "(" + r + ")"
+				}
+				o.add(ind, ".ret "+r)
+			} else {
+				o.add(ind, t.ret(vals))
+			}
 			if i != len(list) {
 				failAt(list[i], "unreachable statement after return")
 			}
 			return
+		case *ast.BranchStmt:
+			if !t.inLoop || v.Label != nil || (v.Tok != token.BREAK && v.Tok != token.CONTINUE) {
+				failAt(s, "%s is outside the subset here", src(s))
+			}
+			if v.Tok == token.BREAK {
+				o.add(ind, ".brk st")
+			} else {
+				o.add(ind, ".next st")
+			}
+			if i != len(list) {
+				failAt(list[i], "unreachable statement after %s", v.Tok)
+			}
+			return
 		case *ast.BlockStmt:
-			if hasReturn(v) {
-				failAt(s, "nested block with return is outside the subset")
+			if hasExit(v) {
+				failAt(s, "nested block with return/break/continue is outside the subset")
 			}
 			t.transform(v.List, o, ind)
 		case *ast.IfStmt:
-			if !hasReturn(v) {
+			if !hasExit(v) {
 				t.transform([]ast.Stmt{s}, o, ind)
 				continue
 			}
 			if v.Init != nil {
 				failAt(s, "if with an init statement is outside the subset")
 			}
-			c, ck := t.expr(v.Cond)
-			if ck.k != kBool {
-				failAt(v.Cond, "condition is not a bool")
-			}
+			c := t.cond(v.Cond)
 			rest := list[i:]
 			el := elseList(v.Else)
 			bodyT, elseT := terminates(v.Body.List), terminates(el)
@@ -1569,8 +2323,12 @@ func (t *tr) terminal(list []ast.Stmt, o *out, ind string, top bool) {
 			}
 			return
 		case *ast.ForStmt:
-			if !top {
-				failAt(s, "a loop below the top level of the function body is outside the subset")
+			// any position whose continuation is the rest of the function (`top` is kept for
+			// documentation: such positions are the function body and the continuing branch of an
+			// early-return `if`)
+			_ = top
+			if t.inLoop {
+				failAt(s, "a loop nested in a loop body is outside the subset")
 			}
 			t.loop(v, o, ind)
 			ind += "  "
@@ -1578,24 +2336,36 @@ func (t *tr) terminal(list []ast.Stmt, o *out, ind string, top bool) {
 			failAt(s, "statement %T is outside the subset: %s", s, src(s))
 		}
 	}
+	if t.inLoop {
+		o.add(ind, ".next st") // the end of the body: next iteration
+		return
+	}
+	if len(t.results) == 0 {
+		o.add(ind, t.ret(nil)) // a function without results may fall off its end
+		return
+	}
 	failAt(t.fd, "function %s can reach the end of its body without a return", t.fd.Name.Name)
 }
 
 func (t *tr) loop(v *ast.ForStmt, o *out, ind string) {
-	if v.Init != nil || v.Post != nil || v.Cond == nil {
-		failAt(v, "only `for cond { … }` loops are in the subset")
+	if v.Init != nil || v.Post != nil {
+		failAt(v, "only `for cond { … }` and `for { … }` loops are in the subset")
 	}
 	bad := ""
 	ast.Inspect(v.Body, func(n ast.Node) bool {
-		switch n.(type) {
-		case *ast.ReturnStmt:
-			bad = "return"
+		switch x := n.(type) {
 		case *ast.BranchStmt:
-			bad = "break/continue/goto"
+			if x.Label != nil || (x.Tok != token.BREAK && x.Tok != token.CONTINUE) {
+				bad = "goto / labelled branch"
+			}
 		case *ast.ForStmt, *ast.RangeStmt:
 			bad = "nested loop"
 		case *ast.LabeledStmt:
 			bad = "label"
+		case *ast.SwitchStmt, *ast.TypeSwitchStmt, *ast.SelectStmt:
+			bad = "switch/select" // would capture `break`
+		case *ast.DeferStmt:
+			bad = "defer"
 		}
 		return bad == ""
 	})
@@ -1607,32 +2377,64 @@ func (t *tr) loop(v *ast.ForStmt, o *out, ind string) {
 	if idx >= len(t.sp.fuel) {
 		failAt(v, "no fuel expression in the table for loop %d of %s", idx, t.fd.Name.Name)
 	}
-	c, ck := t.expr(v.Cond)
-	if ck.k != kBool {
-		failAt(v.Cond, "loop condition is not a bool")
-	}
-	body := &out{}
-	t.transform(v.Body.List, body, "  ")
 	stName := t.leanName + ".St"
 	bodyName := fmt.Sprintf("%s.body%d", t.leanName, idx)
 	loopName := fmt.Sprintf("%s.loop%d", t.leanName, idx)
-	// the helper text is finished in finish(): parameter lists depend on which parameters occur
-	t.loops = append(t.loops, strings.Join([]string{
-		"/-- body of loop " + fmt.Sprint(idx) + " of `" + t.fd.Name.Name + "` (`for " + src(v.Cond) + " { … }`) -/",
-		"def " + bodyName + " @PARAMS@(st : " + stName + ") : " + stName + " :=",
+	condSrc := ""
+	var c lx
+	if v.Cond != nil {
+		c = t.cond(v.Cond)
+		condSrc = src(v.Cond) + " "
+	}
+	if v.Cond != nil && !hasExit(v.Body) {
+		// plain `for cond { body }`: body is a state transformer
+		body := &out{}
+		t.transform(v.Body.List, body, "  ")
+		// the helper text is finished in function(): parameter lists depend on which parameters occur
+		t.loops = append(t.loops, strings.Join([]string{
+			"/-- body of loop " + fmt.Sprint(idx) + " of `" + t.fd.Name.Name + "` (`for " + condSrc + "{ … }`) -/",
+			"def " + bodyName + " @PARAMS@(st : " + stName + ") : " + stName + " :=",
+			strings.Join(body.lines, "\n"),
+			"  st",
+			"",
+			"/-- loop " + fmt.Sprint(idx) + " of `" + t.fd.Name.Name + "`; `none` = fuel exhausted (never a result) -/",
+			"def " + loopName + " @PARAMS@: Nat → " + stName + " → Option " + stName,
+			"  | 0, _ => none",
+			"  | fuel+1, st =>",
+			"    if " + c.s + " then " + loopName + " @ARGS@fuel (" + bodyName + " @ARGS@st)",
+			"    else some st",
+		}, "\n"))
+		o.add(ind, "match "+loopName+" @ARGS"+fmt.Sprint(idx)+"@("+t.sp.fuel[idx]+") st with")
+		o.add(ind, "| none => none")
+		o.add(ind, "| some st =>")
+		return
+	}
+	// loop with return / break / continue in its body (or without condition): the body yields a Ctl
+	body := &out{}
+	t.inLoop = true
+	t.terminal(v.Body.List, body, "  ", false)
+	t.inLoop = false
+	lines := []string{
+		"/-- body of loop " + fmt.Sprint(idx) + " of `" + t.fd.Name.Name + "` (`for " + condSrc + "{ … }`): next iteration, `break`, or `return v` -/",
+		"def " + bodyName + " @PARAMS@(st : " + stName + ") : Ctl " + stName + " (@RT@) :=",
 		strings.Join(body.lines, "\n"),
-		"  st",
 		"",
-		"/-- loop " + fmt.Sprint(idx) + " of `" + t.fd.Name.Name + "`; `none` = fuel exhausted (never a result) -/",
-		"def " + loopName + " @PARAMS@: Nat → " + stName + " → Option " + stName,
+		"/-- loop " + fmt.Sprint(idx) + " of `" + t.fd.Name.Name + "`; `none` = fuel exhausted (never a result),",
+		"    `.inl st` = the loop was left normally in state st, `.inr v` = the function returned v from inside -/",
+		"def " + loopName + " @PARAMS@: Nat → " + stName + " → Option (" + stName + " ⊕ (@RT@))",
 		"  | 0, _ => none",
 		"  | fuel+1, st =>",
-		"    if " + c.s + " then " + loopName + " @ARGS@fuel (" + bodyName + " @ARGS@st)",
-		"    else some st",
-	}, "\n"))
-	o.add(ind, "match "+loopName+" @ARGS"+fmt.Sprint(idx)+"@("+t.sp.fuel[idx]+") st with")
-	o.add(ind, "| none => none")
-	o.add(ind, "| some st =>")
+	}
+	// (not a `match` on the body's result: Lean's equation compiler would unfold the body)
+	step := "Ctl.step (" + bodyName + " @ARGS@st) (" + loopName + " @ARGS@fuel)"
+	if v.Cond != nil {
+		lines = append(lines, "    if "+c.s+" then "+step)
+		lines = append(lines, "    else some (.inl st)")
+	} else {
+		lines = append(lines, "    "+step)
+	}
+	t.loops = append(t.loops, strings.Join(lines, "\n"))
+	o.add(ind, "Ctl.after ("+loopName+" @ARGS"+fmt.Sprint(idx)+"@("+t.sp.fuel[idx]+") st) fun st =>")
 }
 
 var wordRe = regexp.MustCompile(`[A-Za-z_][A-Za-z0-9_.']*`)
@@ -1652,6 +2454,7 @@ func (t *tr) setup(fd *ast.FuncDecl) {
 	t.localByObj = map[types.Object]int{}
 	t.localNames = map[string]bool{}
 	t.skipped = map[types.Object]string{}
+	t.written = map[types.Object]bool{}
 	if fd.Recv != nil && len(fd.Recv.List) == 1 && len(fd.Recv.List[0].Names) == 1 {
 		t.recvName = fd.Recv.List[0].Names[0].Name
 		t.recvObj = t.p.info.Defs[fd.Recv.List[0].Names[0]]
@@ -1679,6 +2482,16 @@ func (t *tr) setup(fd *ast.FuncDecl) {
 		}
 		return true
 	})
+	// which []byte variables are written (through an index assignment, copy, a write primitive or
+	// an effect of the table)?
+	ast.Inspect(fd.Body, func(n ast.Node) bool {
+		for _, w := range t.writeSites(n) {
+			if obj := t.p.info.Uses[w]; obj != nil {
+				t.written[obj] = true
+			}
+		}
+		return true
+	})
 	for _, f := range fd.Type.Params.List {
 		for _, id := range f.Names {
 			obj := t.p.info.Defs[id]
@@ -1697,17 +2510,17 @@ func (t *tr) setup(fd *ast.FuncDecl) {
 					return false
 				}
 				k = t.kindOf(obj.Type(), id)
-				return k.isInt() || k.k == kBytes
+				return k.isInt() || k.k == kBytes || k.k == kStruct
 			}()
 			if !okKind {
 				t.skipped[obj] = src(f.Type)
 				continue
 			}
-			if k.k == kBytes && assigned[id.Name] {
-				failAt(id, "[]byte parameter %s is assigned", id.Name)
+			if k.k == kStruct && assigned[id.Name] {
+				failAt(id, "struct parameter %s is assigned or has its address taken", id.Name)
 			}
 			t.paramByObj[obj] = len(t.params)
-			t.params = append(t.params, param{goName: id.Name, name: mangle(id.Name), k: k, mut: assigned[id.Name]})
+			t.params = append(t.params, param{goName: id.Name, name: mangle(id.Name), k: k, mut: assigned[id.Name] || t.written[obj]})
 		}
 	}
 }
@@ -1723,7 +2536,7 @@ func (t *tr) paramDecl(ps []param) string {
 func (t *tr) allParams() []param {
 	var ps []param
 	for _, a := range t.abstract {
-		ps = append(ps, param{name: a, k: kind{k: -1}})
+		ps = append(ps, param{name: a.name, k: kind{k: -1}, goName: a.ty, field: a.doc})
 	}
 	ps = append(ps, t.recvFields...)
 	ps = append(ps, t.params...)
@@ -1735,7 +2548,7 @@ func declOf(ps []param) string {
 	for _, p := range ps {
 		ty := p.k.lean()
 		if p.k.k == -1 {
-			ty = "ByteArray → Nat"
+			ty = p.goName // abstract parameter: its Lean type
 		}
 		parts = append(parts, "("+p.name+" : "+ty+")")
 	}
@@ -1765,7 +2578,13 @@ func (t *tr) rangeDoc() string {
 		case kInt:
 			parts = append(parts, fmt.Sprintf("-2^63 ≤ %s < 2^63", p.name))
 		case -1:
-			parts = append(parts, fmt.Sprintf("%s _ < 2^32", p.name))
+			parts = append(parts, p.field)
+		case kStruct:
+			for _, f := range t.p.structs[p.k.name] {
+				if f.k.k == kUint {
+					parts = append(parts, fmt.Sprintf("%s.%s < 2^%d", p.name, mangle(f.name), f.k.bits))
+				}
+			}
 		}
 	}
 	return strings.Join(parts, ", ")
@@ -1774,15 +2593,14 @@ func (t *tr) rangeDoc() string {
 // translate a whole function
 func (t *tr) function() string {
 	fd := t.fd
-	if fd.Type.Results == nil {
-		failAt(fd, "function without results")
-	}
-	for _, f := range fd.Type.Results.List {
-		if len(f.Names) > 0 {
-			failAt(f, "named results are outside the subset")
+	if fd.Type.Results != nil {
+		for _, f := range fd.Type.Results.List {
+			if len(f.Names) > 0 {
+				failAt(f, "named results are outside the subset")
+			}
+			obj := t.p.info.Types[f.Type]
+			t.results = append(t.results, t.kindOf(obj.Type, f.Type))
 		}
-		obj := t.p.info.Types[f.Type]
-		t.results = append(t.results, t.kindOf(obj.Type, f.Type))
 	}
 	ast.Inspect(fd.Body, func(n ast.Node) bool {
 		if _, ok := n.(*ast.ForStmt); ok {
@@ -1793,14 +2611,22 @@ func (t *tr) function() string {
 	// effects are discovered while translating; a first dry pass finds out whether there are any
 	// (the result shape depends on it)
 	dry := *t
-	dry.p = &pkgInfo{dir: t.p.dir, name: t.p.name, files: t.p.files, info: t.p.info, tpkg: t.p.tpkg, funcs: t.p.funcs,
+	dry.p = &pkgInfo{dir: t.p.dir, name: t.p.name, files: t.p.files, info: t.p.info, tpkg: t.p.tpkg, funcs: t.p.funcs, fns: t.p.fns,
 		consts: map[string]string{}, structs: map[string][]field{}}
 	for k, v := range t.p.structs {
 		dry.p.structs[k] = v
 	}
 	dry.paramByObj, dry.localByObj, dry.localNames = copyMap(t.paramByObj), map[types.Object]int{}, map[string]bool{}
+	dry.recvFields = append([]param{}, t.recvFields...)
+	dry.abstract = append([]absParam{}, t.abstract...)
 	dry.terminal(fd.Body.List, &out{}, "  ", true)
-	t.hasEffects = dry.hasEffects
+	t.hasEffects, t.hasOut = dry.hasEffects, dry.hasOut
+	if t.hasEffects && t.hasOut {
+		failAt(fd, "segment effects and byte-append effects in one function are outside the subset")
+	}
+	if len(t.results) == 0 && !t.hasEffects && !t.hasOut {
+		failAt(fd, "function without results and without effects")
+	}
 
 	o := &out{}
 	t.terminal(fd.Body.List, o, "  ", true)
@@ -1822,6 +2648,9 @@ func (t *tr) function() string {
 	if t.hasEffects {
 		flds = append(flds, fld{"segs", "List Seg", "[]", "segments appended to the output buffer so far"})
 	}
+	if t.hasOut {
+		flds = append(flds, fld{"out", "ByteArray", "ByteArray.empty", "bytes appended to the output buffer so far"})
+	}
 	fmt.Fprintf(&sb, "/-- mutable locals of `%s` -/\n", fd.Name.Name)
 	fmt.Fprintf(&sb, "structure %s where\n", stName)
 	for _, f := range flds {
@@ -1831,12 +2660,39 @@ func (t *tr) function() string {
 		sb.WriteString("  mk ::\n")
 	}
 	sb.WriteString("\n")
+	// result type
+	var rts []string
+	for _, r := range t.results {
+		rts = append(rts, r.lean())
+	}
+	rt := strings.Join(rts, " × ")
+	if len(rts) == 0 {
+		rt = "Unit"
+	}
+	if t.hasEffects {
+		if len(rts) > 1 {
+			rt = "(" + rt + ")"
+		}
+		rt += " × List Seg"
+	}
+	if t.hasOut {
+		switch {
+		case len(rts) == 0:
+			rt = "ByteArray"
+		case len(rts) > 1:
+			rt = "(" + rt + ") × ByteArray"
+		default:
+			rt += " × ByteArray"
+		}
+	}
 	// loop helpers: only the parameters that occur
 	argsFor := map[int][]param{}
 	for i, l := range t.loops {
+		l = strings.ReplaceAll(l, "@RT@", rt)
 		var used []param
 		for _, p := range all {
-			if usesWord(l, p.name) {
+			// (assigned parameters live in the state: the helpers reach them through `st.`)
+			if !p.mut && usesWord(l, p.name) {
 				used = append(used, p)
 			}
 		}
@@ -1848,18 +2704,6 @@ func (t *tr) function() string {
 	body := strings.Join(o.lines, "\n")
 	for i := range t.loops {
 		body = strings.ReplaceAll(body, "@ARGS"+fmt.Sprint(i)+"@", argsOf(argsFor[i]))
-	}
-	// result type
-	var rts []string
-	for _, r := range t.results {
-		rts = append(rts, r.lean())
-	}
-	rt := strings.Join(rts, " × ")
-	if t.hasEffects {
-		if len(rts) > 1 {
-			rt = "(" + rt + ")"
-		}
-		rt += " × List Seg"
 	}
 	if t.hasLoop {
 		rt = "Option (" + rt + ")"
@@ -1873,7 +2717,11 @@ func (t *tr) function() string {
 		recv = "(*" + t.sp.recv + ")."
 	}
 	fmt.Fprintf(&sb, "/-- `%s.%s%s`  (%s)\n", t.p.name, recv, fd.Name.Name, fset.Position(fd.Pos()).Filename[strings.LastIndex(fset.Position(fd.Pos()).Filename, "/")+1:])
-	fmt.Fprintf(&sb, "    machine ranges of the arguments: %s", t.rangeDoc())
+	if rd := t.rangeDoc(); rd != "" {
+		fmt.Fprintf(&sb, "    machine ranges of the arguments: %s", rd)
+	} else {
+		sb.WriteString("    (no integer arguments)")
+	}
 	if len(t.skipped) > 0 {
 		var sk []string
 		for _, f := range fd.Type.Params.List {
@@ -1885,13 +2733,45 @@ func (t *tr) function() string {
 		}
 		fmt.Fprintf(&sb, "\n    parameters abstracted by the effect table: %s", strings.Join(sk, ", "))
 	}
+	if t.hasOut {
+		sb.WriteString("\n    the last component of the result is the byte string appended to the output buffer")
+	}
 	sb.WriteString(" -/\n")
 	fmt.Fprintf(&sb, "def %s %s: %s :=\n", t.leanName, declOf(all), rt)
 	if len(flds) > 0 {
 		fmt.Fprintf(&sb, "  let st : %s := { %s }\n", stName, strings.Join(inits, ", "))
 	}
 	sb.WriteString(body + "\n")
+	// register for later callers
+	nparams := 0
+	for _, f := range fd.Type.Params.List {
+		nparams += len(f.Names)
+		if len(f.Names) == 0 {
+			nparams++
+		}
+	}
+	key := fd.Name.Name
+	if t.sp.recv != "" {
+		key = t.sp.recv + "." + key
+	}
+	anyMut := false
+	for _, p := range t.params {
+		if p.k.k == kBytes && t.written[t.objOfParam(p)] {
+			anyMut = true // writes into a caller's buffer: the effect is not part of the result
+		}
+	}
+	t.p.fns[key] = &fnInfo{leanName: t.leanName, abstract: t.abstract, recvFields: t.recvFields, params: t.params,
+		nparams: nparams, results: t.results, callable: !t.hasLoop && !t.hasEffects && !t.hasOut && !anyMut && len(t.results) > 0}
 	return sb.String()
+}
+
+func (t *tr) objOfParam(p param) types.Object {
+	for obj, i := range t.paramByObj {
+		if t.params[i].name == p.name {
+			return obj
+		}
+	}
+	return nil
 }
 
 func copyMap(m map[types.Object]int) map[types.Object]int {
@@ -2059,10 +2939,11 @@ func main() {
 		os.Exit(2)
 	}
 	var sb strings.Builder
+	sb.WriteString("import XixiKV.Model.Varint\n")
 	sb.WriteString("/- GENERATED by harness/cmd/trans from the Go sources on every run -- do not edit.\n")
 	sb.WriteString("   Mechanical translation of whitelisted Go functions; see harness/cmd/trans/main.go for the\n")
 	sb.WriteString("   Go subset, the effect / primitive tables and the integer semantics.  The equalities with the\n")
-	sb.WriteString("   hand-written model are proved in XixiKV/Proofs/TransEq.lean. -/\n")
+	sb.WriteString("   hand-written model are proved in XixiKV/Proofs/TransEq.lean and TransEq2.lean. -/\n")
 	sb.WriteString("namespace XixiKV.Generated.Trans\n\n")
 	sb.WriteString(prelude)
 	for _, dir := range order {
@@ -2074,10 +2955,18 @@ func main() {
 		}
 		for _, s := range p.structOrd {
 			fmt.Fprintf(&sb, "\n/-- Go struct `%s.%s` -/\nstructure %s.%s where\n", p.name, s, p.name, s)
+			hasBytes := false
 			for _, f := range p.structs[s] {
-				fmt.Fprintf(&sb, "  %s : %s  -- %s\n", f.name, f.k.lean(), f.k.goName())
+				fmt.Fprintf(&sb, "  %s : %s  -- %s\n", mangle(f.name), f.k.lean(), f.k.goName())
+				if f.k.k == kBytes {
+					hasBytes = true
+				}
 			}
-			sb.WriteString("deriving Repr, DecidableEq\n")
+			if hasBytes {
+				sb.WriteString("deriving DecidableEq\n") // core has no Repr ByteArray
+			} else {
+				sb.WriteString("deriving Repr, DecidableEq\n")
+			}
 		}
 		fmt.Fprintf(&sb, "\nnamespace %s\nend %s\n", p.name, p.name)
 		for _, d := range p.defs {
